@@ -281,7 +281,8 @@ def gen_ni_history(seed):
                     "calc": int(rng.chance(0.25)),
                     # a Python list of matrices is rejected by the CIDER integrators (AttributeError on .ndim):
                     # a rejection, not a result, so only stacked arrays are generated
-                    "container": "array" if nset > 1 else "single",
+                    # (a batch of one - shape (1, nao, nao) / (2, 1, nao, nao) - is a batch too)
+                    "container": "array" if (nset > 1 or rng.chance(0.2)) else "single",
                     "alias": rng.choice([None, None, None, "readonly", "fortran", "sameab"]),
                 }
             )
@@ -370,6 +371,12 @@ def exec_ni_history(hist, rp):
             # replace the long-lived grids objects of this (mol, grid) by rebuilt-but-equal ones
             for key in [k for k in gridobjs if k[1] == op["mol"] and k[2] == op["grid"]]:
                 del gridobjs[key]
+            # the old objects really go away, so that the rebuilt-but-equal ones may get their
+            # addresses (a cache keyed on id() would then confuse them)
+            import gc
+
+            gc.collect()
+            stats["grids_dropped_and_collected"] += 1
             continue
         mi, k, gi, uks = op["model"], op["mol"], op["grid"], op["uks"]
         model = U.model(mi)
@@ -480,7 +487,9 @@ def exec_ni_history(hist, rp):
             if op["alias"] == "sameab":
                 continue  # other input than the memoised reference; only the mutation check applies
             rn, re, rv = reference(mi, k, gi, uks, j)
-            if nset == 1 and op["container"] == "single":
+            if nset == 1 and (op["container"] == "single" or np.ndim(e) == 0):
+                # (a batch of one comes back either squeezed or with a leading axis of 1,
+                # depending on the integrator; both carry the same numbers)
                 gn, ge, gv = n, e, v
             else:
                 gn = n[..., idx] if uks else n[idx]
@@ -521,6 +530,8 @@ def gen_gen_history(seed):
                 ops.append({"op": "occd", "spin": 0, "rho": rng.below(3), "norb": rng.choice([0, 1, 2, 3]), "same_out": bool(rng.chance(0.3)), "alias": rng.choice([None, None, "readonly"])})
             else:
                 ops.append({"op": "tfeat", "spin": 0, "rho": rng.below(3)})
+            if c != "setc" and rng.chance(0.1):
+                ops[-1]["fault"] = draw_fault(rng, 300)
         return {"kind": "tgen", "params": p, "ops": ops, "perturb": rng.choice(PERTURBS)}
     if rng.chance(0.7):
         p = W.draw_nldf_params(rng)
@@ -793,8 +804,14 @@ def exec_tgen_history(hist, rp):
             elif cur is None or cur == "grid":
                 cur = 0
                 point(gen, cur)
-            got, ins = call(gen, op, cur)
+            inj = FaultAt(op.get("fault"))
+            with inj:
+                got, ins = call(gen, op, cur)
         except Exception as ex:
+            if op["op"] != "setc" and op.get("fault") and inj.fired:
+                stats["calls_interrupted_by_injected_failure"] += 1
+                stats["fault_site_" + inj.where] += 1
+                continue
             V("call-raises:LCAONLDFGenerator.%s:%s" % (op["op"], type(ex).__name__), "step %d: %s" % (step, str(ex)[:200]))
             break
         for a, orig in ins:
@@ -1161,6 +1178,10 @@ def gen_plan_history(seed):
         else:
             ops.append({"op": "rho", "spin": s, "f": rng.below(3), "rho": rng.below(3), "cache_p": bool(rng.chance(0.85)), "obj": rng.below(nobj)})
             have.add(s)
+        if rng.chance(0.1):
+            ops[-1]["fault"] = draw_fault(rng, 120)
+            if ops[-1]["op"] == "rho":
+                have.discard(s)
     return {"kind": "plan", "params": p, "ops": ops, "nobj": nobj, "perturb": rng.choice(PERTURBS)}
 
 
@@ -1240,7 +1261,17 @@ def exec_plan_history(hist, rp):
             if op["op"] == "rho":
                 f_in, r_in = fs[op["f"]].copy(), rhos[op["rho"]].copy()
                 b = adigest(f_in, r_in)
-                feat, dfeat = plan.eval_rho_full(f_in, r_in, spin=s, cache_p=op["cache_p"])
+                inj = FaultAt(op.get("fault"))
+                try:
+                    with inj:
+                        feat, dfeat = plan.eval_rho_full(f_in, r_in, spin=s, cache_p=op["cache_p"])
+                except Exception:
+                    if not inj.fired:
+                        raise
+                    stats["calls_interrupted_by_injected_failure"] += 1
+                    stats["fault_site_" + inj.where] += 1
+                    last.pop(sk, None)  # no feature pass to build a potential from
+                    continue
                 if adigest(f_in, r_in) != b:
                     V("input-mutated:%s.eval_rho_full:f-or-rho" % site, "step %d" % step)
                 feat, dfeat = np.array(feat, copy=True), np.array(dfeat, copy=True)
@@ -1259,7 +1290,16 @@ def exec_plan_history(hist, rp):
                 v_in, r_in = vfs[op["v"]].copy(), rhos[j].copy()
                 b = adigest(v_in, r_in, dfeat)
                 vrho = np.zeros_like(r_in)
-                vf = plan.eval_vxc_full(v_in, vrho, dfeat, r_in, spin=s)
+                inj = FaultAt(op.get("fault"))
+                try:
+                    with inj:
+                        vf = plan.eval_vxc_full(v_in, vrho, dfeat, r_in, spin=s)
+                except Exception:
+                    if not inj.fired:
+                        raise
+                    stats["calls_interrupted_by_injected_failure"] += 1
+                    stats["fault_site_" + inj.where] += 1
+                    continue
                 if adigest(v_in, r_in, dfeat) != b:
                     V("input-mutated:%s.eval_vxc_full:vfeat-dfeat-or-rho" % site, "step %d" % step)
                 vf, vrho = np.array(vf, copy=True), np.array(vrho, copy=True)
@@ -1287,6 +1327,8 @@ def gen_eval_history(seed):
     ops = []
     for _ in range(rng.randint(2, 6)):
         ops.append({"op": "eval", "n": rng.choice([1, 7, 1999, 2000, 2001, 4001, 333]), "nspin": rng.choice([1, 2]), "rhocut": rng.choice([0.0, 1e-9]), "split": rng.choice([None, None, 2, 3, 1000, "pairs"]), "pseed": rng.below(4)})
+        if rng.chance(0.1):
+            ops[-1]["fault"] = draw_fault(rng, 150)
     return {"kind": "eval", "models": [m], "ops": ops, "perturb": rng.choice(PERTURBS)}
 
 
@@ -1329,9 +1371,15 @@ def exec_eval_history(hist, rp):
             rho_data[:, 4] = np.abs(r.normal(size=(nspin, n))) * rho_data[:, 0] ** (5.0 / 3) + (rho_data[:, 1:4] ** 2).sum(1) / (8 * rho_data[:, 0] + 1e-300)
             rt = get_rho_tuple_with_grad_cross(rho_data, is_mgga=True)
             b = adigest(X0TN, *rt)
+            inj = FaultAt(op.get("fault"))
             try:
-                out = _eval_model(m, X0TN, rt, op["rhocut"])
+                with inj:
+                    out = _eval_model(m, X0TN, rt, op["rhocut"])
             except Exception as ex:
+                if inj.fired:
+                    stats["calls_interrupted_by_injected_failure"] += 1
+                    stats["fault_site_" + inj.where] += 1
+                    continue
                 V("call-raises:%s:%s" % (site, type(ex).__name__), "step %d: %s" % (step, str(ex)[:200]))
                 break
             if adigest(X0TN, *rt) != b:
